@@ -7,6 +7,12 @@ props = [json.loads(l) for l in open('/verif/properties.jsonl')]
 plist = '\n'.join(f"  {p['id']}: {p['title']} — {p['statement']}" for p in props)
 AREAS = {
  '5': {},
+ '7': {'typesD': ('bluebell/types.py', 'hierarchical elements and their parts: HierElement, headings, nums, subheadings, crossheadings, longtitle, the wrapping of children into intro / content / wrapUp'),
+       'typesE': ('bluebell/types.py', 'judgment and debate structures, speech containers / groups / speeches (from, by), and the document root classes'),
+       'xmlC': ('bluebell/xml.py', 'XmlGenerator.item_to_xml for inline and marker elements (ref href, img, br inside remarks, sup/sub, abbr/term/def), text merging between inline elements, make_element / attribute handling'),
+       'xslD': ('bluebell/akn_text.xsl', 'the template for hierarchical elements and attachments: keyword (and synonyms), num, heading, subheading output, the escaping of hyphens / backslashes in nums, block-attrs'),
+       'pegB': ('bluebell/akn.peg together with the matching hand edit in the generated bluebell/akn.py', 'the inline rules: bold / italics / underline, ref, img, remark, sup / sub, standard inlines, footnote references, escape, symbol'),
+       'pegC': ('bluebell/akn.peg together with the matching hand edit in the generated bluebell/akn.py', 'hier_element, hier_element_heading, num, heading, subheading, crossheading, speech rules, block attribute rules')},
  '6': {'parserA': ('bluebell/parser.py', 'pre_parse and its helpers (indent handling, tabs, trailing spaces, the line regex), parse, and the hand-optimised plain-text rule override in Parser'),
        'parserB': ('bluebell/parser.py and bluebell/cli.py', 'parse_to_xml, tree_to_xml, unparse (the XSLT driver), the FRBR URI / root handling, and the command-line tool'),
        'idgen': ('bluebell/xml.py', 'IdGenerator (eId generation: clean_num, counters, ensure_unique, rewrite_all_eids, rewrite_id_prefix, the tables of exempt / pass-through / alias elements)'),
